@@ -332,6 +332,69 @@ def apply_header(F, h):
         F.header[k] = v
 
 
+HISTORY_OPS = ['to_dimacs', 'to_file', 'to_file_hv', 'to_latex', 'new_variable', 'new_block',
+               'grow', 'add_clause', 'header']
+
+
+def apply_history(F, ops, tmp):
+    for op in ops:
+        n = F.number_of_variables()
+        if op == 'to_dimacs':
+            F.to_dimacs()
+        elif op == 'to_file':
+            F.to_file(io.StringIO(), export_header=False, export_varnames=False)
+        elif op == 'to_file_hv':
+            F.to_file(io.StringIO(), export_header=True, export_varnames=True)
+        elif op == 'to_latex':
+            F.to_latex()
+        elif op == 'new_variable':
+            F.new_variable(label='h%d' % (n + 1))
+        elif op == 'new_block':
+            F.new_block(2, label='hb_{}')
+        elif op == 'grow':
+            F.update_variable_number(n + 2)
+        elif op == 'add_clause':
+            F.add_clause([1, -n] if n >= 2 else ([1] if n == 1 else []))
+        elif op == 'header':
+            F.header['note %d' % len(F.header)] = 'added later'
+        else:
+            raise KeyError(op)
+
+
+def history_cases(tier):
+    """Every history of <= 3 (4) operations that renders at least once and
+    changes the object afterwards, on four start formulas."""
+    depth = 4 if tier == 'thorough' else 3
+    renders = ('to_dimacs', 'to_file', 'to_file_hv', 'to_latex')
+    bases = [{'src': 'scope', 'n': 0, 'clauses': []},
+             {'src': 'scope', 'n': 2, 'clauses': [[1, -2], [2]]},
+             {'src': 'named', 'vars': NAMESETS[0], 'clauses': [[1, -2]]},
+             {'src': 'family', 'name': 'php-2-1'}]
+    out = []
+    for L in range(2, depth + 1):
+        for ops in itertools.product(HISTORY_OPS, repeat=L):
+            first_render = next((i for i, o in enumerate(ops) if o in renders), None)
+            if first_render is None or all(o in renders for o in ops[first_render:]):
+                continue
+            for bi, base in enumerate(bases):
+                k = (len(out) + bi) % 4
+                out.append({'kind': 'write', 'formula': base, 'header': {}, 'history': list(ops),
+                            'opts': OPTS[k],
+                            'wmode': ('to_dimacs', 'stringio', 'path')[len(out) % 3],
+                            'rmode': 'stringio'})
+    return out
+
+
+def run_history(args, R):
+    preload()
+    tmp, rep = Tmp(), Reporter(R)
+    try:
+        for case in args['cases']:
+            _write_case(R, rep, tmp, case, sample_every=499)
+    finally:
+        tmp.close()
+
+
 def expected_content(rec, F):
     """(n, clauses) the formula holds.  For scope recipes it is computed from
     the recipe (independent of the CNF object); otherwise from the object's
@@ -556,7 +619,16 @@ def check_write(case, tmp, R=None):
     viol = []
     F = build_formula(rec)
     apply_header(F, h)
-    exp = expected_content(rec, F)
+    if case.get('history'):
+        # the object has a past: it was rendered / grown / rendered again
+        # before the rendering under test (what is rendered last must be the
+        # formula as it is now)
+        apply_history(F, case['history'], tmp)
+        exp = expected_content({'src': 'object'}, F)
+        if R is not None:
+            R.stats['write_cases_with_history'] += 1
+    else:
+        exp = expected_content(rec, F)
     if exp is None:
         if R is not None:
             R.stats['skipped_malformed_formula_object'] += 1
@@ -884,6 +956,8 @@ def shards(tier, seed):
     cat = catalogue(tier, seed)
     for i, chunk in enumerate(scope.stripe(cat, 12)):
         out.append(('wcat%02d' % i, 'run_writer_catalogue', {'recs': chunk}))
+    for i, chunk in enumerate(scope.stripe(history_cases(tier), 8)):
+        out.append(('whist%02d' % i, 'run_history', {'cases': chunk}))
     # (c) CLI
     for i, chunk in enumerate(scope.stripe(cli_cases(tier), 4)):
         out.append(('cli%d' % i, 'run_cli_cases', {'cases': chunk}))
